@@ -177,6 +177,9 @@ pub fn read_cur(path: &Path) -> Option<Vec<u8>> {
 }
 
 pub fn silence_panics() {
+    if std::env::var("RV_LOUD").is_ok() {
+        return;
+    }
     std::panic::set_hook(Box::new(|_| {}));
 }
 
@@ -206,7 +209,13 @@ pub fn worker<P: Prop>(tier: Tier, seed: u64, idx: usize, seed_idx: usize, cases
         if let Some(c) = cur.borrow_mut().as_mut() {
             c.put(&body);
         }
-        let rep = P::run(&case);
+        let rep = match std::panic::catch_unwind(std::panic::AssertUnwindSafe(|| P::run(&case))) {
+            Ok(r) => r,
+            Err(p) => {
+                let m = p.downcast_ref::<&str>().map(|s| s.to_string()).or_else(|| p.downcast_ref::<String>().cloned()).unwrap_or_default();
+                CaseReport { nontrivial: false, classes: BTreeSet::new(), viol: Some(Viol { prop: P::ID, sig: "panic/unguarded".into(), msg: format!("panic outside a guarded call: {m}") }) }
+            }
+        };
         let is_frozen = *frozen.borrow();
         let mut st = stats.borrow_mut();
         if !is_frozen {
